@@ -8,6 +8,7 @@ open Sdb Sdb.Rec
 structure S where
   r : R := {}
   oracleOnly : Bool := false
+  waiters : List Nat := []      -- targets of the goroutines inside WaitUntilReconciled
   batch : Bool := false    -- BatchOperations configured: rounds of Model.ReconcilerBatch
   printed : Nat := 0       -- calls already reported
   deriving Inhabited
@@ -18,7 +19,11 @@ def showState (s : S) : S × String :=
   let newCalls := s.r.log.drop s.printed
   let cs := (newCalls.map showCall).toArray.qsort (· < ·)
   let objs := (s.r.objs.toArray.qsort (fun a b => a.id < b.id)).toList.map fun o => s!"{o.id}:{o.data}:{o.other}:{o.kind.str}"
-  let str := s!"calls=[{" ".intercalate cs.toList}] objs=[{" ".intercalate objs}] lw={if s.r.progressLW = 0 then "0" else "+"}{if s.r.tieSeen then " #tie" else ""}"
+  -- a waiter has returned exactly when the published progress revision has reached its target
+  -- (Model.Progress: C16_wait_returns_only_when_reached, C16_wait_no_lost_wakeup)
+  let ws := if s.waiters.isEmpty then "" else
+    " waiters=" ++ ",".intercalate (s.waiters.map fun t => if t ≤ s.r.progressRev then "ret" else "wait")
+  let str := s!"calls=[{" ".intercalate cs.toList}] objs=[{" ".intercalate objs}] lw={if s.r.progressLW = 0 then "0" else "+"}{ws}{if s.r.tieSeen then " #tie" else ""}"
   ({ s with printed := s.r.log.length }, str)
 
 def after (s : S) (r : R) : S × String :=
@@ -83,6 +88,10 @@ def step (s : S) (ws : List String) : S × String :=
   | ["advance", ms] =>
     match ms.toNat? with
     | some ms => after s (if s.batch then s.r.advanceB ms 256 else s.r.advance ms 256)
+    | none => (s, "bad-op")
+  | ["waiter", k] =>
+    match k.toNat? with
+    | some k => after { s with waiters := s.waiters ++ [s.r.tableRev + k] } s.r
     | none => (s, "bad-op")
   | ["obs"] => after s s.r
   | ["final"] => (s, "-")
